@@ -60,6 +60,9 @@ func c14ItemSQL(it c14Item) string {
 		return fmt.Sprintf("ONCE.%s(%d, %s) AS %s", it.Stub, it.Site, arg, it.Alias)
 	case "immq":
 		return fmt.Sprintf("%s.imm(%d, %s) AS %s", it.Qual, it.Site, arg, it.Alias)
+	case "global":
+		// GLOBAL takes subqueries only; the call-site id travels as a one-cell subquery
+		return fmt.Sprintf("GLOBAL.%s((SELECT %d AS i FROM dual), (SELECT a FROM `<-t`)) AS %s", it.Stub, it.Site, it.Alias)
 	}
 	return "1"
 }
@@ -83,6 +86,12 @@ func c14Project(items []c14Item, row map[string]any, onceVal map[int]any, sites 
 			sites[it.Site].Args = append(sites[it.Site].Args, argText(arg))
 		case "spin", "spinasync":
 			sites[it.Site].Args = append(sites[it.Site].Args, argText(arg))
+		case "global":
+			if _, ok := onceVal[it.Site]; !ok {
+				onceVal[it.Site] = true
+				sites[it.Site].Args = append(sites[it.Site].Args, "[]interface {}")
+			}
+			out[it.Alias] = "$ALL_A"
 		case "once":
 			if _, ok := onceVal[it.Site]; !ok {
 				onceVal[it.Site] = stubValue(it.Stub, it.Site, arg)
@@ -153,11 +162,16 @@ func genC14(t *rapid.T) *Bundle {
 	nitems := rapid.IntRange(1, 6).Draw(t, "nitems")
 	var items []c14Item
 	usedOnce := map[string]bool{}
+	usedGlobal := map[string]bool{}
 	usedCols := map[string]bool{}
 	site := 0
 	hasImmq := false
 	for i := 0; i < nitems; i++ {
-		kind := rapid.SampledFrom([]string{"async", "plain", "col", "spin", "spinasync", "async", "once", "immq"}).Draw(t, "kind")
+		kinds := []string{"async", "plain", "col", "spin", "spinasync", "async", "once", "immq"}
+		if place == "top" || place == "derived_star" || place == "cte" {
+			kinds = append(kinds, "global")
+		}
+		kind := rapid.SampledFrom(kinds).Draw(t, "kind")
 		it := c14Item{Kind: kind}
 		it.Arg = rapid.SampledFrom(argCols).Draw(t, "argcol")
 		switch kind {
@@ -185,6 +199,13 @@ func genC14(t *rapid.T) *Bundle {
 				it.IsCons = true
 				it.Const = nil
 			}
+		case "global":
+			// GLOBAL is another run-once strategy with its own memo: it must not disturb ONCE of the same function
+			it.Stub = rapid.SampledFrom([]string{"fx", "fid"}).Draw(t, "stub")
+			if usedGlobal[it.Stub] {
+				continue
+			}
+			usedGlobal[it.Stub] = true
 		case "immq":
 			it.Qual = rapid.SampledFrom([]string{"ASYNC", "SPIN", "SPINASYNC"}).Draw(t, "qual")
 			it.Stub = "imm"
@@ -322,6 +343,32 @@ func genC14(t *rapid.T) *Bundle {
 				exp.Rows = append(exp.Rows, out)
 			}
 		}
+	}
+	// GLOBAL columns hold the `a` column of every row of t
+	allA := []any{}
+	for _, r := range rows {
+		allA = append(allA, map[string]any{"a": r.(map[string]any)["a"]})
+	}
+	var fill func(v any) any
+	fill = func(v any) any {
+		switch x := v.(type) {
+		case string:
+			if x == "$ALL_A" {
+				return allA
+			}
+		case map[string]any:
+			for k, c := range x {
+				x[k] = fill(c)
+			}
+		case []any:
+			for i, c := range x {
+				x[i] = fill(c)
+			}
+		}
+		return v
+	}
+	for i := range exp.Rows {
+		exp.Rows[i] = fill(exp.Rows[i])
 	}
 	var siteIDs []int
 	for id, s := range sites {
